@@ -2,6 +2,7 @@
    answers every query from the model (Hw.Topo.Helpers / Distrib); where a brute-force definition exists it is
    evaluated too and a disagreement between the two is reported in the answer (which then differs from the C). -/
 import Hw.Topo.Helpers
+import Hw.Io.Calc
 import Hw.Topo.Distrib
 import Hw.Topo.WFLemmas
 import Driver.Topo
@@ -135,6 +136,10 @@ def answer (d : Dump) (t : List String) : Option String :=
   | ["TYD", ty] => do
     let ty ← parseInt ty
     pure (toString (typeDepth d ty))
+  | ["TDA", ty, gd] => do
+    let ty ← parseInt ty; let gd ← parseNat gd
+    -- hwloc_get_type_depth_with_attr (the model written for hwloc-calc, C20): only Groups at several depths consult the attribute
+    pure (toString (Hw.Calc.typeDepthWithAttr d { type := ty.toNat, depth := gd }))
   | ["DT", dp] => do
     let dp ← parseInt dp
     pure (toString (depthType d dp))
